@@ -559,7 +559,7 @@ def _parse_config_params(toml):
             _params["initial_olivine_fabric"] = getattr(
                 _core.MineralFabric, "olivine_" + _params["initial_olivine_fabric"]
             )
-    except AttributeError:
+    except (AttributeError, TypeError):
         raise _err.ConfigError(
             f"invalid initial olivine fabric: {_params['initial_olivine_fabric']}"
         ) from None
@@ -698,7 +698,7 @@ def _parse_phase(ϕ: str | _core.MineralPhase | int) -> _core.MineralPhase:
     elif isinstance(ϕ, int):
         try:
             return _core.MineralPhase(ϕ)
-        except IndexError:
+        except (IndexError, ValueError):
             raise _err.ConfigError(f"invalid phase in phase assemblage: {ϕ}") from None
     raise _err.ConfigError(f"invalid phase in phase assemblage: {ϕ}") from None
 
